@@ -29,7 +29,7 @@ __CPROVER_ensures((int)__CPROVER_return_value == (g_has_internal ? g_dret : HAND
 #endif
 #if UNIT_CT_DISPATCH
 process_result state_table_dispatch(uint16_t state_id, fsm_t* sm, uint8_t region_id, event_t event)   /* self.m_state_dispatch_tables[state_id].dispatch(sm, region_id, event): its own unit */
-__CPROVER_requires(state_id == sm->m_active_state_ids[region_id])                 /*@ob C06.region-reacts-from-its-own-active-state */
+__CPROVER_requires(state_id == sm->m_active_state_ids[region_id])                 /*@ob C06,C03,C01.region-reacts-from-its-own-active-state */
 __CPROVER_requires(g_dcalls == 0 && region_id == g_region && EV_EQ(event, g_evt))
 __CPROVER_assigns(g_dcalls, g_dret)
 __CPROVER_ensures(g_dcalls == 1 && 0 <= g_dret && g_dret <= 7 && (int)__CPROVER_return_value == g_dret)
